@@ -40,7 +40,7 @@ def info(tier):
         "convex NLP problem (solve); prefix = k in %s colliding models (the last ones always M's own recipe with other data, bounds, parameter values or symmetric flags; in half of the pairs all data arrays of the process live in shared buffers rewritten in place); M observed after the prefix, and in the order M, prefix, M "
         "again; compared with a fresh-process twin (1e-12 for evaluation-type observations, 1e-9 for solves) and the reference "
         "interpreter; distinct = canonical (M, k) hashes" % KS[tier],
-        "required_cells": [f"k:{k}" for k in KS[tier]] + ["M:expression", "M:directed-family-sweep", "M:deep-copy-of-a-compiled-model", "M:expression-with-parameters", "M:lp", "M:nlp", "order:prefix-then-M",
+        "required_cells": [f"k:{k}" for k in KS[tier]] + ["M:expression", "M:directed-family-sweep", "M:deep-copy-of-a-compiled-model", "M:built-from-objects-shared-with-an-earlier-model", "M:shares-a-constraint-object-with-an-earlier-model", "M:expression-with-parameters", "M:lp", "M:nlp", "order:prefix-then-M",
                                                           "order:M-prefix-M", "collision:same-names-other-bounds", "collision:same-parameter-names-other-values",
                                                           "collision:rebuilt-identical", "collision:bare-leaves", "collision:shifted-positions",
                                                           "collision:same-recipe-other-data-or-structure", "buffers:shared-in-place", "buffers:fresh-arrays"],
@@ -470,6 +470,59 @@ def run_problem_pair(rec, rng, twin, k, order, kind):
     rec.cells["buffers:shared-in-place" if pool is not None else "buffers:fresh-arrays"] += 1
     show["buffers"] = "shared" if pool is not None else "fresh"
 
+    if rng.random() < 0.4:
+        # M and an earlier model N assembled from the SAME expression / constraint objects (f built once, used in two Problems):
+        # N = the same objective object with the other sense, or plus one more variable that shifts every position
+        try:
+            import optyx
+
+            bs = B.Builder(prob["decls"])
+            obj_e = bs.S(prob["objective"])
+            cons_o = []
+            for c_ in prob["constraints"]:
+                r_ = bs.rel(c_)
+                cons_o.extend(r_ if isinstance(r_, list) else [r_])
+            extra = bs.variables([rng.choice(["a0", "zz"])])[0]
+            variants = []
+            N1 = optyx.Problem()
+            (N1.maximize if prob["sense"] == "min" else N1.minimize)(obj_e)
+            variants.append(N1)
+            N2 = optyx.Problem()
+            (N2.minimize if prob["sense"] == "min" else N2.maximize)(obj_e + (2.0 * extra if kind == "lp" else (extra - 0.5) ** 2))
+            extra.lb, extra.ub = -1.0, 1.0
+            variants.append(N2)
+            for Nv in variants:
+                for co in cons_o:
+                    Nv.subject_to(co)
+                with warnings.catch_warnings():
+                    warnings.simplefilter("ignore")
+                    try:
+                        Nv.solve(method=method if kind == "lp" else rng.choice(["trust-constr", method]), **({} if kind == "lp" else {"maxiter": 50}))
+                    except Exception:
+                        rec.events["shared-object-prefix-solve-raised"] += 1
+            Ms = optyx.Problem()
+            (Ms.minimize if prob["sense"] == "min" else Ms.maximize)(obj_e)
+            for co in cons_o:
+                Ms.subject_to(co)
+            for meth_ in ([method] if kind == "lp" else [method, "trust-constr"]):
+                with warnings.catch_warnings():
+                    warnings.simplefilter("ignore")
+                    s_ = Ms.solve(method=meth_, **({"maxiter": 300} if meth_ == "trust-constr" else {}))
+                got_ = {"status": s_.status.value, "objective": s_.objective_value, "values": s_.values, "variables": [v.name for v in Ms.variables]}
+                if meth_ == method:
+                    want_ = want
+                else:
+                    want_ = twin.fresh_process_call({"op": "solve", "prob": prob, "method": meth_, "kwargs": {"maxiter": 300}})
+                    if "error" in want_:
+                        continue
+                rec.cmp(1, "M:built-from-objects-shared-with-an-earlier-model")
+                check_solve(rec, got_, want_, {**show, "method": meth_}, "M built from expression / constraint objects an earlier model also used", prob)
+        except TwinError as ex:
+            rec.inconclusive.append("twin: " + str(ex))
+            return
+        except Exception as ex:
+            rec.events["shared-object-mode-raised:" + type(ex).__name__] += 1
+
     def solve_here():
         b = B.Builder(prob["decls"], buffers=pool)
         P = b.problem(prob)
@@ -510,9 +563,59 @@ def check_solve(rec, got, want, show, label, prob):
             rec.violation("solve-result-differs-from-fresh-process", {"prob": prob, "show": show, "when": label, "got": [got["objective"], got["values"]], "want": [want["objective"], want["values"]]})
 
 
+def run_shared_constraint_pair(rec, rng, twin, method, variant):
+    """Directed: one constraint OBJECT used by two LPs whose variable lists have the same length but place its variables at other
+    positions (N: [a0, x[0], x[1]]  /  M: [x[0], x[1], y]); N is extracted / solved first."""
+    import optyx
+
+    x = ["vec", "x"]
+    decls = [{"k": "vec", "name": "x", "n": 2, "lb": 0.0, "ub": 5.0}, {"k": "var", "name": "y", "lb": 0.0, "ub": 3.0}, {"k": "var", "name": "a0", "lb": 0.0, "ub": 2.0}]
+    shared = [["rel", "<=", ["bin", "+", ["el", x, 0], ["bin", "*", ["raw", 2.0, "float"], ["el", x, 1]]], ["raw", 4.0, "float"], "direct"],
+              ["rel", ">=", ["matmul", ["arr", [1.0, -1.0]], x], ["raw", -1.0, "float"], "direct"]][: 1 + variant % 2]
+    objM = ["bin", "+", ["neg", ["matmul", ["arr", [3.0, 2.0]], x]], ["bin", "*", ["raw", 2.0, "float"], ["var", "y"]]]
+    objN = ["bin", "-", ["sum", x], ["var", "a0"]]
+    probM = {"decls": decls, "objective": objM, "sense": "min", "constraints": shared + [["rel", ">=", ["bin", "+", ["var", "y"], ["el", x, 0]], ["raw", 0.5, "float"], "direct"]]}
+    rec.case({"shared-constraint-pair": variant, "m": method})
+    try:
+        want = twin.fresh_process_call({"op": "solve", "prob": probM, "method": method})
+    except TwinError as ex:
+        rec.inconclusive.append("twin: " + str(ex))
+        return
+    if "error" in want:
+        rec.events["twin-error:" + want["error"][:30]] += 1
+        return
+    b = B.Builder(decls)
+    cons_o = []
+    for c_ in shared:
+        r_ = b.rel(c_)
+        cons_o.extend(r_ if isinstance(r_, list) else [r_])
+    N = optyx.Problem().maximize(b.S(objN))
+    for co in cons_o:
+        N.subject_to(co)
+    N.subject_to(b.rel(["rel", "<=", ["var", "a0"], ["raw", 1.5, "float"], "direct"]))
+    M = optyx.Problem().minimize(b.S(objM))
+    for co in cons_o:
+        M.subject_to(co)
+    M.subject_to(b.rel(probM["constraints"][-1]))
+    try:
+        with warnings.catch_warnings():
+            warnings.simplefilter("ignore")
+            N.solve(method=method)
+            s_ = M.solve(method=method)
+    except Exception as ex:
+        rec.violation("solve-raises-after-prefix:" + type(ex).__name__, {"prob": probM, "error": repr(ex)[:200]})
+        return
+    rec.cmp(1, "M:shares-a-constraint-object-with-an-earlier-model")
+    check_solve(rec, {"status": s_.status.value, "objective": s_.objective_value, "values": s_.values, "variables": [v.name for v in M.variables]}, want,
+                {"objective": A.render(objM), "shared": [A.render(c) for c in shared], "method": method}, "M shares constraint objects with an earlier LP of equal size", probM)
+
+
 def run(ctx, rec):
     rng = ctx.rng
     twin = Twin()
+    for i, (m_, v_) in enumerate([(m__, v__) for m__ in ("auto", "highs-ds", "linprog", "SLSQP") for v__ in (0, 1)]):
+        if ctx.mine(i + 3):
+            run_shared_constraint_pair(rec, rng, twin, m_, v_)
     # systematic sweep: every node family of the grammar as M (bare / `f - c` / `c * f`), after a short prefix that ends with M's own
     # recipe under other data, bounds, parameter values and symmetric flags
     fams = X.directed_families()
